@@ -363,6 +363,10 @@ def ribbon_script(rng, sid, cap=None, big=False):
             if rng.random() < 0.01:
                 x = next_down(f32(boundary))
             ops.append("poll " + hx(x))
+            if rng.random() < 0.008:
+                # a sample that is not a position at all (NaN, +inf, far above full scale): never in range, so it
+                # ends the run like any lift (comparisons with NaN are false)
+                ops.append("poll " + fhex(rng.choice([float("nan"), float("nan"), float("inf"), 2.0, 1e30, 3.4028235e38])))
             if rng.random() < 0.03:
                 ops.append(rng.choice(["jp", "jr"]))
         # lift: one or more out-of-range samples
